@@ -6,6 +6,7 @@ import (
 	"path/filepath"
 	"regexp"
 	"sort"
+	"strconv"
 	"strings"
 
 	"verif/harness/mon"
@@ -14,6 +15,25 @@ import (
 // cleanupBatch removes the (large) input and result files of a batch that produced no finding.
 func cleanupBatch(c *mon.Ctx, name string) {
 	os.RemoveAll(filepath.Join(c.Out, "batch-"+name))
+}
+
+var reTypeID = regexp.MustCompile(`#([0-9a-f]{1,8})\b`)
+
+// innermostCtor names the innermost constructor mentioned in a generated error chain
+// ("unable to decode a#1: field x: unable to decode b#2: ..." -> b), so that one defect
+// gets one signature no matter which outer constructor happened to carry the value.
+func innermostCtor(reg *registry, pkg int, errText, fallback string) string {
+	name := fallback
+	for _, m := range reTypeID.FindAllStringSubmatch(errText, -1) {
+		id, err := strconv.ParseUint(m[1], 16, 32)
+		if err != nil {
+			continue
+		}
+		if c := reg.byID[pkg][uint32(id)]; c != nil {
+			name = c.name
+		}
+	}
+	return name
 }
 
 var reDecodeBare = regexp.MustCompile(`^func \(\w+ \*(\w+)\) DecodeBare\(`)
